@@ -53,7 +53,7 @@ def main(argv):
         r = run_one(mod, case)
         if "--shrink" in argv and r.get("violations") and hasattr(mod, "shrink"):
             try:
-                case2 = mod.shrink(case, r["violations"], deadline=time.time() + 120)
+                case2 = mod.shrink(case, r["violations"], deadline=time.time() + 45)
                 if case2 is not None:
                     r2 = run_one(mod, case2)
                     if r2.get("violations"):
